@@ -953,6 +953,16 @@ def gen_cases(tier, rng):
     slow = _runtime_cases(tier, rng, us, ec)
     # -- network expansion: serial vs parallel on full event records, rule lists with unusable rules first
     slow += [_gen_crn(rng, f) for f in CRN_FIXED] + [_gen_crn(rng) for _ in range(8 if q else 80)]
+    # degenerate expansions: no rule, no seed, only an unparsable seed, repeats = 0, a single one-component rule, the same seed in
+    # successive builds and an empty build call
+    base = dict(kind="crn", workers=[1, 2, 3], max_components=2, use_frontier=True, dedup_across_rules=False, max_mix=None, max_tasks=None)
+    E_, D_ = CRN_RULES["E"], CRN_RULES["D"]
+    slow += [dict(base, rules=[], rule_names=[], seeds=["CCO", "CC(=O)O"], repeats=2),
+             dict(base, rules=[E_, D_], rule_names=["E", "D"], seeds=[], repeats=2),
+             dict(base, rules=[E_, D_], rule_names=["E", "D"], seeds=["C(C)(C)(C)(C)C"], repeats=2),
+             dict(base, rules=[E_, D_], rule_names=["E", "D"], seeds=["CCO", "CC(=O)O"], repeats=0),
+             dict(base, rules=[D_], rule_names=["D"], seeds=["CCO"], repeats=3),
+             dict(base, rules=[E_, D_], rule_names=["E", "D"], seeds=["CCO", "CCO", "OCC"], repeats=1, builds=[["CCO"], ["CCO"], []])]
     # the slow cases (seconds each, they start process pools) are spread evenly through the list: the check's worker pool
     # hands out consecutive chunks, a block of them would be run by one worker one after the other
     out = []
